@@ -59,6 +59,8 @@ def main(pid):
         harm += 1
         if rc in meta.get("accept_exit", [0]):      # 2 (undecided, no alarm) is acceptable only where the refactor's meta.json says why
             quiet += 1
+            if rc != 0:
+                undecided.append(f"harmless/{n}: exit {rc} (undecided by design, see its meta.json; no VIOLATION line)")
         else:
             failed.append(f"harmless/{n}: harmless refactor reported (exit {rc})")
     print(json.dumps(dict(property=pid, mutants=mut, caught=caught, harmless=harm, quiet=quiet, failed=failed, undecided=undecided, skipped=skipped)))
